@@ -51,6 +51,8 @@ Outcome call(Setup& s, const Case& c)
 {
     std::srand((unsigned)c.i("srand", 1));
     tapkee::verif::shuffle_seed((unsigned)c.i("shuffle", 1));
+    if (c.i("ecb", 0) && c.s("kernel", "linear") == "linear" && c.s("dist", "l2") == "l2")
+        return guarded_embed_eigen_subrange(s.X, (unsigned long)c.i("dseed", 1), params_from_case(c));
     if (c.i("plabel", 0))
     {
         // Permuted labels: the sample at position i is labelled perm[i] and its data live in column perm[i] of a storage
@@ -807,6 +809,7 @@ void run_dm(const Case& c, Result& r)
     if (phi0.sum() < 0)
         phi0 = -phi0;
     std::vector<double> rho;
+    int zero_columns = 0;
     double res = 0, scaledev = 0;
     for (int j = 0; j < s.td; ++j)
     {
@@ -814,7 +817,19 @@ void run_dm(const Case& c, Result& r)
         double zz = z.squaredNorm();
         if (!(zz > 0))
         {
-            r.violation("dm:zero-column", sf("column %d vanishes", j));
+            // lambda^t underflows for an eigenvalue that is zero up to rounding (rank-deficient kernel): such a column is
+            // legitimately zero. The order of the columns is not fixed by the statement, so count: no more vanishing columns
+            // than retained eigenvalues with lambda^t below 1e-100.
+            int allowed = 0;
+            for (int q = 1; q <= s.td && q < N; ++q)
+                if (std::pow(std::fabs(sp.vals(q)), t) < 1e-100)
+                    ++allowed;
+            if (++zero_columns <= allowed)
+            {
+                rho.push_back(0.0);
+                continue;
+            }
+            r.violation("dm:zero-column", sf("column %d vanishes (%d vanishing columns, %d retained eigenvalues with lambda^t < 1e-100)", j, zero_columns, allowed));
             return;
         }
         double rq = z.dot(K * z) / zz;
